@@ -156,7 +156,7 @@ CLAIMS["C12"] = (
     "inherited line wins / first timing-change line wins per kind, redundancy against the active point, replacement at "
     "equal time, clamps [6,60000] / [0.1,10] / [0.01,10] (taiko, mania only) / [0,100], NaN only on inherited lines "
     "(ticks off), defaults from [General]; the four lists must be element-wise equal and strictly increasing; a rejected line leaves the pending group and the lists untouched (observed through a hook).",
-    "Bound: 1 line (4 shapes) and 2 lines at one time (quick); 2 lines at different / out-of-order times (thorough); "
+    "Bound: 1 line (4 shapes); 2 lines at one time (same kind: both symbolic; different kinds: first line concrete); a second line at another time runs out of memory (flush = ControlPoints::add, decided under C13); "
     "times from {-5,0,10,20} (concrete tokens); beat length from an 18-value alphabet incl. 0, -0, NaN, +-3e9, inf, "
     "-1e-300 (the velocity division 100/-b is computed by code and reference: two full-width dividers do not finish); "
     "signature, bank, custom bank, volume, flags: every i32 or parse error; mode / default bank / default volume "
